@@ -124,6 +124,7 @@ class RunDirector(Director):
         w = self.w
         if kind == "open" and path.startswith(SIM_REMOTE_DIR + "/") and not mut:
             w.fetchlog.add("file", posixpath.basename(path), actor.name, sched.step)
+            w._note_fetch("file", posixpath.basename(path))
         for ce in self.clock_events:
             if ce["op"] == self.op and ce["at"] == i:
                 w.clock.advance(ce["delta"])
@@ -144,6 +145,9 @@ class RunDirector(Director):
                 return ("crash", torn)
         if self.faults and kind in ("write", "open", "unlink", "rename"):
             key = w.key_for_path(path)
+            if key is None and w.current_kind == "GET" and path.startswith(w.cache_dir + "/") \
+                    and not path.endswith("file_cache_config.json"):
+                key = w.actor_key.get(actor.name)  # unknown file name: the key this actor is fetching
             if key is not None or path.startswith(SIM_REMOTE_DIR + "/"):
                 cnt_key = (kind, path)
                 nth = self.per_path.get(cnt_key, 0)
@@ -280,6 +284,8 @@ class World:
         self.abstract_states = set()
         self.miss_log = {}
         self.current_req = []
+        self.current_kind = None
+        self.actor_key = {}  # actor name -> key whose fetch that actor started last (fallback fault addressing)
         self.chunk = k.get("chunk", 4096)
 
     # ------------------------------------------------------------------ setup
@@ -339,6 +345,18 @@ class World:
         return None
 
     # ------------------------------------------------------- remote side stubs
+    def _note_fetch(self, scheme, res, key=None):
+        """remember which key the calling actor is fetching (used to address file-system faults when the
+        file name itself does not tell, e.g. mkstemp-style temporaries)"""
+        actor = self.sched.owner()
+        if key is None:
+            taken = set(self.actor_key.values())
+            cands = [k for k in self.current_req if self.keys[k]["scheme"] == scheme and self.keys[k]["res"] == res]
+            free = [k for k in cands if k not in taken]
+            key = (free or cands or [None])[0]
+        self.actor_key[actor] = key
+        return key
+
     def _key_from_content(self, filepath):
         """Fallback attribution when file names do not follow the documented scheme: the self-describing
         content names its resource; among the keys of the current request that resource is usually unique."""
@@ -387,6 +405,7 @@ class World:
         # the resource sees the uri literally: stripping the "<<comment" is the cache's job
         res = uri.split("://", 1)[1].split("/", 1)[1]
         key = self._attribute_key(filepath, res)
+        self._note_fetch("sim", res.split("<<")[0], key)
         self.sched("net.req", uri, 0)
         self.fetchlog.add("sim", res, self.sched.owner(), self.sched.step)
         fault = self.director.take_fault(RES_FAULTS, key, res)
@@ -422,6 +441,7 @@ class World:
     def http_get(self, url, **kwargs):
         import requests as _rq
         res = url.split("://", 1)[1].split("/", 1)[1]
+        self._note_fetch("https", res.split("<<")[0])
         self.sched("net.req", url, 0)
         self.fetchlog.add("https", res, self.sched.owner(), self.sched.step)
         fault = self.director.take_fault(NET_FAULTS, None, res)
@@ -439,6 +459,8 @@ class World:
 
     def _pp(self, filepath):
         key = self._attribute_key(filepath, None)
+        if key is not None:
+            self.actor_key[self.sched.owner()] = key
         self.pp_calls.append((self.director.op, key, filepath))
         fault = self.director.take_fault(PP_FAULTS, key, None)
         kind = fault["kind"] if fault else None
@@ -707,6 +729,8 @@ class World:
         kind = op["op"]
         self.clock.advance(op.get("dt", 0))
         d.begin_op(op["id"])
+        self.current_kind = kind
+        self.actor_key = {}
         if self._tracer is not None:
             sys.settrace(self._tracer)  # a SimCrash raised inside the trace function switched it off
         self.fetchlog.op = op["id"]
